@@ -103,15 +103,17 @@ def iteration(index, rep):
 
         def hook(interp, d, a, kw, node):
             if d == "self.apply_custom_parameters":
-                rec["custom_arg"] = a[0]
+                from .core import values_by_ref_names
+                rec["custom_arg"] = values_by_ref_names(index.func(RMNT, "ScenarioRunnerNoTrade.apply_custom_parameters"), a, kw, ["country_data"])[0]
                 return Path(("row",))
             if d == "self.verify_country_data":
-                rec["verified"] = a[0]
+                rec["verified"] = (list(a) + list(kw.values()))[0]
                 return None
             if d in ("np.isnan", "math.isnan", "pd.isna", "pd.isnull"):
                 return interp.fork("isnan:" + canon(a[0]))
             if d == "self.run_optimizer_for_country":
-                rec["opt_arg"] = a[0]
+                from .core import values_by_ref_names
+                rec["opt_arg"] = values_by_ref_names(index.func(RMNT, "ScenarioRunnerNoTrade.run_optimizer_for_country"), a, kw, ["country_data"])[0]
                 return (ratio, Opaque("description"), Opaque("interpreted"))
             if d == "self.fill_data_for_map":
                 rec["map"] = [canon(x) for x in a]
